@@ -12,6 +12,10 @@ Decided:
     producer item over the caller's (inputs, outputs); the indirect table is unshared DriverToDevice with its bytes and
     freed only afterwards; the path that re-materialises the table always unshares it.
  P5 refused submissions share nothing (C03.E1).  P6 all unshares of a completion precede its Ok return.
+ P7 driver-level token tables store each buffer under the token returned by its add (C16.S4).
+ P8 buffers parked in driver state leave it only after a refusable pop_used succeeded.
+ P9 one access-platform field feeds every share/unshare.  P10 the transports' queue_set write the three area addresses,
+    each split into its own low/high words (C10.M2/C11.W3 traces).  P11 free-list relink rules (C03.E6).
 Not decided: exactly once per buffer over a history (rests on the free-list invariant).
 """
 from .common import *
